@@ -294,4 +294,4 @@ BOUNDS = dict(
     "with a rational unitary basis; breakdown at every interior index; symbolic and fixed tol; function and Arnoldi() object; two batched "
     "start vectors; arnoldi_eigs for n = 2 with max_iters in {2,3,5}", thorough="adds n = 4 symbolic tol and complex n = 4",
     values="Hessenberg entries, s > 0, 0 < tol < 1 symbolic; each stopping index / clip branch is a path, coverage checked by z3")
-BOUNDS["added"] = 'two factorisations of the same size / step count in one process, examined after both calls'
+BOUNDS["added"] = 'two factorisations of the same size / step count in one process, examined after both calls Thorough tier: n <= 5.'
